@@ -432,12 +432,14 @@ def apply_measures(
     DataFrame
         _description_
     """
-    # applying association measure to each column
-    associations = (
-        X[features]
-        .apply(feature_association, y=y, measures=measures, **kwargs, result_type="expand", axis=0)
-        .T
-    )
+    # applying association measure to each column (not DataFrame.apply(result_type="expand"), which
+    # drops the measures' names when X has as many rows as there are measurements)
+    associations = DataFrame(
+        {
+            feature: feature_association(X[feature], y=y, measures=measures, **kwargs)
+            for feature in features
+        }
+    ).T
 
     return associations
 
